@@ -22,13 +22,15 @@
 EXTENDS Integers, Sequences, FiniteSets, TLC
 
 CONSTANTS P,      \* number of ranks, 0..P-1 ; rank 0 = ROOT
-          J,      \* number of jobs per round, 0..J-1
+          JobIds, \* the set of job ids of a round (naturals; 0..n-1 for mpi_skel::run and MPIMaster(comm, n, ...), any distinct ids for
+                  \* the constructors taking a list of job ids: the protocol carries the ids themselves, never positions in the list)
           R,      \* number of consecutive rounds
           BossWorks   \* TRUE: rank 0 is master AND worker (mpi_skel::run); FALSE: rank 0 is a pure master (MPIMaster(..., include_boss = false),
                       \*       loop "for (; !master.is_finished();) { master.order(); master.check_workers(); }"), ranks 1..P-1 are the workers
 
 Ranks == 0..(P - 1)
-Jobs  == 0..(J - 1)
+Jobs  == JobIds
+J     == Cardinality(JobIds)
 Root  == 0
 Workers == IF BossWorks THEN Ranks ELSE Ranks \ {Root}      \* the worker pool of the master
 NW == Cardinality(Workers)
